@@ -289,12 +289,19 @@ class Interp:
         if code in ("ADD", "SUB"):
             a, b = self.get(values, ins[0]).astype(I64), self.get(values, ins[1]).astype(I64)
             ta, tb = T[ins[0]], T[ins[1]]
-            if ta["dtype"] not in ("int8", "uint8"):
+            if ta["dtype"] not in ("int8", "uint8", "int16") or ot["dtype"] != ta["dtype"] or tb["dtype"] != ta["dtype"]:
                 raise Unsupported("%s on %s" % (code, ta["dtype"]))
             s1, z1 = qparams(ta)
             s2, z2 = qparams(tb)
             so, zo = qparams(ot)
-            left, (m1, e1), (m2, e2), (mo, eo) = tflref.add_sub_params(s1[0], s2[0], so[0], 8)
+            bits = 16 if ta["dtype"] == "int16" else 8
+            if bits == 16:
+                def pot(v):
+                    m, _ = math.frexp(float(v))
+                    return m == 0.5
+                if opts.get("PotScaleInt16", True) and pot(s1[0]) and pot(s2[0]) and pot(so[0]):
+                    raise Unsupported("int16 %s on the power-of-two scale path" % code)
+            left, (m1, e1), (m2, e2), (mo, eo) = tflref.add_sub_params(s1[0], s2[0], so[0], bits)
             v1 = vec_mbqm((a - int(z1[0])) * (1 << left), m1, e1)
             v2 = vec_mbqm((b - int(z2[0])) * (1 << left), m2, e2)
             raw = v1 + v2 if code == "ADD" else v1 - v2
